@@ -65,6 +65,9 @@ structure Sheet where
   grid : Bool
   colAt : Int → ColView
   rowAt : Int → RowView
+  /-- `Worksheet.links`: (row, column, target) — no modelled operation creates one, but
+      `delete_sheet` and its undo carry them along (finding F01d) -/
+  links : List (Int × Int × String) := []
 
 /-- `types.rs::DefinedName` (the formula is an opaque text here) -/
 structure DefName where
@@ -152,7 +155,8 @@ def setSheet (b : Book) (i : Nat) (s : Sheet) : Book := { b with sheets := b.she
 /-- models `new_empty.rs::new_empty_worksheet` -/
 def emptySheet (name : String) (id : Nat) : Sheet :=
   { name := name, id := id, state := .visible, color := "", frozenRows := 0, frozenCols := 0,
-    grid := true, colAt := fun _ => ColView.default, rowAt := fun _ => RowView.default }
+    grid := true, colAt := fun _ => ColView.default, rowAt := fun _ => RowView.default,
+    links := [] }
 
 /-! ### model-level functions (`model.rs`, `new_empty.rs`, `worksheet.rs`) -/
 
@@ -261,13 +265,15 @@ def mDeleteSheet (b : Book) (index : Nat) : Except Err Book :=
   else if index ≥ b.sheets.length then .error .indexRange
   else .ok { b with sheets := b.sheets.eraseIdx index }
 
-/-- models `model.rs::get_column_width` → `worksheet.rs::get_column_width` (0 when hidden) -/
+/-- models `worksheet.rs::get_actual_column_width` (the width the column has, hidden or not; the
+    repaired `set_columns_width` records this one — the pinned tree recorded `get_column_width`,
+    which is 0 for a hidden column: fixed finding F01c) -/
 def mGetColumnWidth (b : Book) (sheet : Nat) (c : Int) : Except Err Int :=
   match getSheet b sheet with
   | .error e => .error e
   | .ok s =>
     if !validCol c then .error .invalidColumn
-    else .ok (if (s.colAt c).hidden then 0 else (s.colAt c).width)
+    else .ok (s.colAt c).width
 
 /-- models `model.rs::set_column_width` → `worksheet.rs::set_column_width`
     (`set_column_width_and_style` with the column's current hidden flag and style) -/
@@ -294,13 +300,13 @@ def mSetColumnHidden (b : Book) (sheet : Nat) (c : Int) (h : Bool) : Except Err 
     if !validCol c then .error .invalidColumn
     else .ok (setSheet b sheet { s with colAt := upd s.colAt c { s.colAt c with hidden := h } })
 
-/-- models `model.rs::get_row_height` → `worksheet.rs::row_height` (0 when hidden) -/
+/-- models `worksheet.rs::get_actual_row_height` (recorded by the repaired `set_rows_height`) -/
 def mGetRowHeight (b : Book) (sheet : Nat) (r : Int) : Except Err Int :=
   match getSheet b sheet with
   | .error e => .error e
   | .ok s =>
     if !validRow r then .error .invalidRow
-    else .ok (if (s.rowAt r).hidden then 0 else (s.rowAt r).height)
+    else .ok (s.rowAt r).height
 
 /-- models `model.rs::set_row_height` → `worksheet.rs::set_row_height` -/
 def mSetRowHeight (b : Book) (sheet : Nat) (r h : Int) : Except Err Book :=
@@ -360,6 +366,7 @@ def back1 (env : Env) (b : Book) : Diff → Except Err Book
   | .deleteSheet i old =>
     -- `insert_sheet(name, index, Some(sheet_id))`, then the fields the arm copies back:
     -- rows, cols, show_grid_lines, frozen_columns, frozen_rows, state, color
+    -- (NOT `links` and `conditional_formatting`: finding F01d)
     match mInsertSheet env b old.name i (some old.id) with
     | .error e => .error e
     | .ok b1 =>
